@@ -11,9 +11,40 @@
  *  L <alg> <blockhex> <total> <chunk> long stream: block repeated to <total>
  *                                     bytes, fed in updates of <chunk> bytes
  *                                     (chunk 0 = one single update)
+ *  O <sub> ...                         overlapping buffers: the output is written
+ *                                     into (or across an end of) the buffer that
+ *                                     holds an input.  One exact-size heap block
+ *                                     ("arena") holds the input at offset <aoff>
+ *                                     and receives the output at offset <boff>.
+ *    O B <alg> <msghex> <aoff> <boff>             *_Buf, digest over the message
+ *    O H <alg> <msghex> <parts> <aoff> <boff>     streaming, *_Final into the message
+ *    O N <alg> <keyhex> <msghex> <m|k> <aoff> <boff>
+ *                                     HMAC_*_Buf, digest over the message (m) or
+ *                                     over the key (k)
+ *    O M <alg> <keyhex> <msghex> <parts> <m|k> <aoff> <boff>
+ *                                     streaming HMAC, HMAC_*_Final over m / k
+ *    O I <alg> <keyhex> <msghex> <doff> <iters> <mode>
+ *                                     chain in place: <iters> times the digest of
+ *                                     msg[0..len) is written to msg + <doff>;
+ *                                     mode 0 HMAC_*_Buf, 1 HMAC streaming,
+ *                                     2 *_Buf (key unused), 3 hash streaming
+ *    O P <pwhex> <salthex> <c> <dklen> <s|p> <aoff> <boff>
+ *                                     PBKDF2_SHA256, buf over the salt (s) or the
+ *                                     password (p)
+ *  G <alg|crc32c> <mode> <off> <d> <blockhex>
+ *                                     ONE call of 2^32 + <d> bytes.  A 2 MiB
+ *                                     memory file (the block repeated) is mapped
+ *                                     2049 times back to back; the message starts
+ *                                     <off> bytes into that region.  mode: buf =
+ *                                     one *_Buf call, upd = Init, ONE Update,
+ *                                     Final, gib = Updates of 2^30 bytes.
  * alg: sha256 | sha1 | md5.  Answer: "R <hex>".
  */
+#define _GNU_SOURCE	/* memfd_create */
 #include "vh.h"
+
+#include <sys/mman.h>
+#include <unistd.h>
 
 #include "crc32c.h"
 #include "md5.h"
@@ -137,6 +168,98 @@ hm_final(int a, union anyctx * c, uint8_t * d)
 	case 1: HMAC_SHA1_Final(d, &c->h1); break;
 	case 2: HMAC_MD5_Final(d, &c->hm5); break;
 	}
+}
+
+static void
+h_buf(int a, const void * p, size_t n, uint8_t * d)
+{
+
+	switch (a) {
+	case 0: SHA256_Buf(p, n, d); break;
+	case 1: SHA1_Buf(p, n, d); break;
+	case 2: MD5_Buf(p, n, d); break;
+	}
+}
+
+static void
+hm_buf(int a, const void * k, size_t kl, const void * p, size_t n, uint8_t * d)
+{
+
+	switch (a) {
+	case 0: HMAC_SHA256_Buf(k, kl, p, n, d); break;
+	case 1: HMAC_SHA1_Buf(k, kl, p, n, d); break;
+	case 2: HMAC_MD5_Buf(k, kl, p, n, d); break;
+	}
+}
+
+/*
+ * One exact-size heap block that holds the input (ilen bytes) at offset aoff
+ * and will receive olen output bytes at offset boff.
+ */
+static uint8_t *
+arena(const uint8_t * in, size_t ilen, size_t aoff, size_t olen, size_t boff,
+    void ** tofree)
+{
+	size_t sz = (aoff + ilen > boff + olen) ? aoff + ilen : boff + olen;
+	uint8_t * a;
+
+	if (sz == 0)
+		vh_die("empty arena");
+	a = vh_exact(NULL, sz, tofree);
+	memset(a, 0xA5, sz);
+	if (ilen)
+		memcpy(a + aoff, in, ilen);
+	return (a);
+}
+
+static void
+run_parts(int a, int mac, union anyctx * c, const uint8_t * m, size_t mlen,
+    const char * spec)
+{
+	size_t np, i, off = 0;
+	size_t * parts = parse_parts(spec, &np);
+
+	for (i = 0; i < np; i++) {
+		if (off + parts[i] > mlen)
+			vh_die("parts exceed message");
+		if (mac)
+			hm_update(a, c, m + off, parts[i]);
+		else
+			h_update(a, c, m + off, parts[i]);
+		off += parts[i];
+	}
+	if (off != mlen)
+		vh_die("parts do not cover message");
+	vh_free(parts);
+}
+
+/* One 2 MiB memory file mapped HUGE_NCHUNK times back to back (4 GiB + 2 MiB). */
+#define HUGE_CHUNK ((size_t)2 << 20)
+#define HUGE_NCHUNK ((size_t)2049)
+static uint8_t *
+huge_region(const uint8_t * blk, size_t blen)
+{
+	uint8_t * base;
+	size_t i;
+	int fd;
+
+	if (blen == 0 || HUGE_CHUNK % blen)
+		vh_die("block length must divide 2 MiB");
+	if ((fd = memfd_create("c01-huge", 0)) == -1)
+		vh_die("memfd_create: %s", strerror(errno));
+	if (ftruncate(fd, (off_t)HUGE_CHUNK))
+		vh_die("ftruncate: %s", strerror(errno));
+	if ((base = mmap(NULL, HUGE_NCHUNK * HUGE_CHUNK, PROT_NONE,
+	    MAP_PRIVATE | MAP_ANONYMOUS | MAP_NORESERVE, -1, 0)) == MAP_FAILED)
+		vh_die("mmap reserve: %s", strerror(errno));
+	for (i = 0; i < HUGE_NCHUNK; i++)
+		if (mmap(base + i * HUGE_CHUNK, HUGE_CHUNK, PROT_READ | PROT_WRITE,
+		    MAP_SHARED | MAP_FIXED, fd, 0) == MAP_FAILED)
+			vh_die("mmap window: %s", strerror(errno));
+	close(fd);
+	for (i = 0; i < HUGE_CHUNK; i += blen)
+		memcpy(base + i, blk, blen);
+	return (base);
 }
 
 int
@@ -314,6 +437,187 @@ main(void)
 			vh_puthex(stdout, d, dlen[a]);
 			printf("\n");
 			free(buf);
+			vh_free(b);
+		} else if (op[0] == 'O') {
+			const char * sub = vh_tok(&L, 1);
+			void * fa = NULL, * fo = NULL, * fc;
+			uint8_t * ar, * out;
+			size_t outlen;
+			union anyctx * c = (union anyctx *)vh_exact(NULL,
+			    sizeof(union anyctx), &fc);
+
+			if (sub[0] == 'B' || sub[0] == 'H') {
+				int a = algid(vh_tok(&L, 2));
+				int st = (sub[0] == 'H');
+				size_t mlen;
+				uint8_t * m = vh_tok_hex(&L, 3, &mlen);
+				size_t aoff = (size_t)vh_tok_u(&L, 4 + st);
+				size_t boff = (size_t)vh_tok_u(&L, 5 + st);
+
+				ar = arena(m, mlen, aoff, dlen[a], boff, &fa);
+				out = ar + boff;
+				outlen = dlen[a];
+				if (st) {
+					h_init(a, c);
+					run_parts(a, 0, c, ar + aoff, mlen,
+					    vh_tok(&L, 4));
+					h_final(a, c, out);
+				} else
+					h_buf(a, ar + aoff, mlen, out);
+				vh_free(m);
+			} else if (sub[0] == 'N' || sub[0] == 'M') {
+				int a = algid(vh_tok(&L, 2));
+				int st = (sub[0] == 'M');
+				size_t klen, mlen;
+				uint8_t * k = vh_tok_hex(&L, 3, &klen);
+				uint8_t * m = vh_tok_hex(&L, 4, &mlen);
+				int overkey = (vh_tok(&L, 5 + st)[0] == 'k');
+				size_t aoff = (size_t)vh_tok_u(&L, 6 + st);
+				size_t boff = (size_t)vh_tok_u(&L, 7 + st);
+				uint8_t * kx, * mx;
+
+				if (overkey) {
+					ar = arena(k, klen, aoff, dlen[a], boff, &fa);
+					kx = ar + aoff;
+					mx = vh_exact(m, mlen, &fo);
+				} else {
+					ar = arena(m, mlen, aoff, dlen[a], boff, &fa);
+					mx = ar + aoff;
+					kx = vh_exact(k, klen, &fo);
+				}
+				out = ar + boff;
+				outlen = dlen[a];
+				if (st) {
+					hm_init(a, c, kx, klen);
+					run_parts(a, 1, c, mx, mlen, vh_tok(&L, 5));
+					hm_final(a, c, out);
+				} else
+					hm_buf(a, kx, klen, mx, mlen, out);
+				vh_free(k); vh_free(m);
+			} else if (sub[0] == 'I') {
+				int a = algid(vh_tok(&L, 2));
+				size_t klen, mlen;
+				uint8_t * k = vh_tok_hex(&L, 3, &klen);
+				uint8_t * m = vh_tok_hex(&L, 4, &mlen);
+				size_t doff = (size_t)vh_tok_u(&L, 5);
+				uint64_t iters = vh_tok_u(&L, 6), it;
+				int mode = (int)vh_tok_u(&L, 7);
+				uint8_t * kx = vh_exact(k, klen, &fo);
+
+				ar = arena(m, mlen, 0, dlen[a], doff, &fa);
+				out = ar + doff;
+				outlen = dlen[a];
+				for (it = 0; it < iters; it++) {
+					switch (mode) {
+					case 0:
+						hm_buf(a, kx, klen, ar, mlen, out);
+						break;
+					case 1:
+						hm_init(a, c, kx, klen);
+						hm_update(a, c, ar, mlen);
+						hm_final(a, c, out);
+						break;
+					case 2:
+						h_buf(a, ar, mlen, out);
+						break;
+					case 3:
+						h_init(a, c);
+						h_update(a, c, ar, mlen);
+						h_final(a, c, out);
+						break;
+					default:
+						vh_die("bad chain mode");
+					}
+				}
+				vh_free(k); vh_free(m);
+			} else if (sub[0] == 'P') {
+				size_t plen, slen;
+				uint8_t * p = vh_tok_hex(&L, 2, &plen);
+				uint8_t * s = vh_tok_hex(&L, 3, &slen);
+				uint64_t cnt = vh_tok_u(&L, 4);
+				size_t dk = (size_t)vh_tok_u(&L, 5);
+				int overpw = (vh_tok(&L, 6)[0] == 'p');
+				size_t aoff = (size_t)vh_tok_u(&L, 7);
+				size_t boff = (size_t)vh_tok_u(&L, 8);
+				uint8_t * px, * sx;
+
+				if (overpw) {
+					ar = arena(p, plen, aoff, dk, boff, &fa);
+					px = ar + aoff;
+					sx = vh_exact(s, slen, &fo);
+				} else {
+					ar = arena(s, slen, aoff, dk, boff, &fa);
+					sx = ar + aoff;
+					px = vh_exact(p, plen, &fo);
+				}
+				out = ar + boff;
+				outlen = dk;
+				PBKDF2_SHA256(px, plen, sx, slen, cnt, out, dk);
+				vh_free(p); vh_free(s);
+			} else {
+				vh_die("bad O sub-op %s", sub);
+				return (1);
+			}
+			printf("R ");
+			vh_puthex(stdout, out, outlen);
+			printf("\n");
+			free(fa); free(fo); free(fc);
+		} else if (op[0] == 'G') {
+			const char * alg = vh_tok(&L, 1);
+			const char * mode = vh_tok(&L, 2);
+			size_t off = (size_t)vh_tok_u(&L, 3);
+			size_t extra = (size_t)vh_tok_u(&L, 4);
+			size_t blen, pos = 0;
+			uint8_t * b = vh_tok_hex(&L, 5, &blen);
+			size_t total = ((size_t)1 << 32) + extra;
+			size_t piece = (size_t)1 << 30;
+			int crc = (strcmp(alg, "crc32c") == 0);
+			int a = crc ? -1 : algid(alg);
+			uint8_t * base, * msg;
+			uint8_t d[32];
+			size_t dl = crc ? 4 : dlen[a];
+			union anyctx c;
+			CRC32C_CTX cc;
+
+			if (sizeof(size_t) < 8)
+				vh_die("size_t too small for a 4 GiB call");
+			if (off + extra > HUGE_CHUNK)
+				vh_die("off + d exceed the spare 2 MiB");
+			base = huge_region(b, blen);
+			msg = base + off;
+			if (strcmp(mode, "buf") == 0) {
+				if (crc)
+					vh_die("no CRC32C_Buf");
+				h_buf(a, msg, total, d);
+			} else {
+				if (strcmp(mode, "upd") == 0)
+					piece = total;
+				else if (strcmp(mode, "gib") != 0)
+					vh_die("bad G mode %s", mode);
+				if (crc)
+					CRC32C_Init(&cc);
+				else
+					h_init(a, &c);
+				while (pos < total) {
+					size_t n = total - pos;
+
+					if (n > piece)
+						n = piece;
+					if (crc)
+						CRC32C_Update(&cc, msg + pos, n);
+					else
+						h_update(a, &c, msg + pos, n);
+					pos += n;
+				}
+				if (crc)
+					CRC32C_Final(d, &cc);
+				else
+					h_final(a, &c, d);
+			}
+			printf("R ");
+			vh_puthex(stdout, d, dl);
+			printf("\n");
+			munmap(base, HUGE_NCHUNK * HUGE_CHUNK);
 			vh_free(b);
 		} else
 			vh_die("bad op %s", op);
